@@ -412,6 +412,9 @@ def parse_template(path):
                     elif w[0] == 'sigrw':
                         cur_rw = {'rule': w[1], 'sig': True, 'ordinal': None, 'optional': False}
                         mode = 'rw_old'
+                    elif w[0] == 'statusmatch':
+                        d.rws.append({'rule': 'R13', 'statusmatch': True, 'old': '', 'new': w[1] if len(w) > 1 else 'vp_status_in_set', 'ordinal': None})
+                        mode = None
                     elif w[0] == 'method':
                         cur_rw = {'rule': w[1], 'method': True, 'ordinal': 0, 'optional': True}
                         mode = 'rw_old'
@@ -501,6 +504,9 @@ def apply_rws(text, d, log):
     for rw in d.rws:
         if rw.get('sig'):
             continue
+        if rw.get('statusmatch'):
+            text = rewrite_status_matches(text, rw['new'], log)
+            continue
         if rw.get('method'):
             text = rewrite_method_calls(text, rw['old'].strip(), rw['new'].strip(), rw['rule'], log)
             continue
@@ -560,6 +566,63 @@ def apply_rws(text, d, log):
         log.append((rw['rule'], strip_ws(text[a:b]), strip_ws(new)))
         text = text[:a] + new.strip() + text[b:]
     return text
+
+
+_status_table = None
+
+
+def status_table():
+    """NAME -> code, read from the linked `http` crate's status_codes! table (trusted: the crate's own source)"""
+    global _status_table
+    if _status_table is None:
+        import glob as _g
+        tab = {}
+        for p in _g.glob(os.path.expanduser('~/.cargo/registry/src/*/http-1*/src/status.rs')):
+            for m in re.finditer(r'\(\s*(\d{3})\s*,\s*([A-Z_]+)\s*,\s*"', open(p).read()):
+                tab[m.group(2)] = int(m.group(1))
+        if not tab:
+            raise GenError('http crate status table not found')
+        _status_table = tab
+    return _status_table
+
+
+def rewrite_status_matches(text, fn, log):
+    """R13: `matches!(E, StatusCode::A | StatusCode::B ..)` -> `fn(E, &[a, b, ..])` using the http crate's own code table"""
+    while True:
+        s = sig(lex(text))
+        hit = None
+        for i, tk in enumerate(s):
+            if tk.kind == 'ident' and tk.text == 'matches' and i + 2 < len(s) and s[i + 1].text == '!' and s[i + 2].text == '(':
+                hit = i
+                break
+        if hit is None:
+            return text
+        open_off = s[hit + 2].start
+        close = find_matching(text, open_off)
+        inner = text[open_off + 1:close - 1]
+        # split at first top-level comma
+        depth, cut = 0, None
+        for tk in sig(lex(inner)):
+            if tk.text in '([{': depth += 1
+            elif tk.text in ')]}': depth -= 1
+            elif tk.text == ',' and depth == 0:
+                cut = tk.start
+                break
+        if cut is None:
+            raise GenError('matches!: no pattern')
+        expr, pats = inner[:cut], inner[cut + 1:]
+        codes = []
+        for p in pats.split('|'):
+            p = strip_ws(p)
+            if not p:
+                continue
+            m = re.fullmatch(r'StatusCode : : ([A-Z_]+)', p)
+            if not m or m.group(1) not in status_table():
+                raise GenError('matches!: pattern %r is not a StatusCode constant' % p)
+            codes.append(status_table()[m.group(1)])
+        new = '%s(%s, &[%s])' % (fn, expr.strip(), ', '.join('%du16' % c for c in codes))
+        log.append(('R13', strip_ws(text[s[hit].start:close]), strip_ws(new)))
+        text = text[:s[hit].start] + new + text[close:]
 
 
 def rewrite_method_calls(text, name, fn, rule, log):
@@ -663,7 +726,26 @@ def apply_splices(text, d, log):
     for sp in d.splices:
         a, b = find_span(text, sp['anchor'], sp['ordinal'], 'splice anchor')
         ins = '\n'.join((l + GHOST_MARK) if l.strip() else l for l in sp['lines'].split('\n'))
-        if sp['where'] == 'after':
+        if sp['where'] == 'after_stmt':
+            # after the end of the statement that contains the anchor: next ';' at depth 0
+            depth = sum(1 for tk in sig(lex(text[a:b])) if tk.kind == 'punct' and tk.text in '([{') - \
+                sum(1 for tk in sig(lex(text[a:b])) if tk.kind == 'punct' and tk.text in ')]}')
+            end = None
+            for tk in sig(lex(text[b:])):
+                if tk.kind != 'punct':
+                    continue
+                if tk.text in '([{': depth += 1
+                elif tk.text in ')]}':
+                    if depth == 0:
+                        break
+                    depth -= 1
+                elif tk.text == ';' and depth == 0:
+                    end = b + tk.end
+                    break
+            if end is None:
+                raise GenError('splice after_stmt: statement end not found for %r' % sp['anchor'].strip()[:60])
+            text = text[:end] + '\n' + ins + '\n' + text[end:]
+        elif sp['where'] == 'after':
             text = text[:b] + '\n' + ins + '\n' + text[b:]
         elif sp['where'] == 'before':
             # insert on its own lines before the line containing the anchor start
@@ -812,7 +894,7 @@ def erasure_check(gen_text, meta):
         if rule == 'R9s':
             canon = re.sub(r'\bvp_self\b', 'self', canon)
             continue
-        if rule in ('R1', 'R5', 'R8', 'R2', 'R3', 'R7', 'R11', 'R12'):
+        if rule in ('R1', 'R5', 'R8', 'R2', 'R3', 'R7', 'R11', 'R12', 'R13'):
             n = strip_ws(new)
             if n and n in canon:
                 canon = canon.replace(n, strip_ws(old), 1)
